@@ -8,15 +8,181 @@ import (
 	"crypto/sha1"
 	"encoding/json"
 	"fmt"
+	"net"
+	"net/rpc/jsonrpc"
 	"os"
+	"os/exec"
 	"path/filepath"
 	"sort"
 	"strconv"
 	"testing"
+	"time"
 
+	"github.com/pebbe/zmq4"
 	"github.com/spf13/viper"
 	"github.com/usnistgov/dastard"
 )
+
+// ---- the complete real start-up, one process per snapshot -----------------------------------------------------------
+// TestVerifStartupChild is what `dastard` does at start-up: setupViper, RunClientUpdater, RunRPCServer (which restores
+// the source configurations, record lengths and output path from the saved file and tells the clients).  A SUB socket
+// and one SendAllStatus request collect what clients are told; that is "what start-up restored", as a client sees it.
+// RunRPCServer can run only once per process (it registers HTTP handlers), hence the child processes.
+
+func suFreePort() int {
+	l, err := net.Listen("tcp", ":0")
+	if err != nil {
+		panic(err)
+	}
+	defer l.Close()
+	return l.Addr().(*net.TCPAddr).Port
+}
+
+func TestVerifStartupChild(t *testing.T) {
+	snap := os.Getenv("VERIF_CHILD_SNAP")
+	if snap == "" {
+		return
+	}
+	rec := map[string]any{"snap": snap, "panic": "", "restored": map[string]string{}}
+	defer func() {
+		b, _ := json.Marshal(rec) // into a file: the server's terminal heart-beat goroutine writes to stdout all the time
+		os.WriteFile(os.Getenv("VERIF_CHILD_OUT"), b, 0664)
+	}()
+	os.Setenv("HOME", snap)
+	viper.Reset()
+	if err := setupViper(); err != nil {
+		rec["panic"] = "setupViper: " + err.Error()
+		return
+	}
+	statusPort, rpcPort := suFreePort(), suFreePort()
+	sub, err := zmq4.NewSocket(zmq4.SUB)
+	if err != nil {
+		rec["panic"] = err.Error()
+		return
+	}
+	defer sub.Close()
+	sub.SetSubscribe("")
+	sub.Connect(fmt.Sprintf("tcp://localhost:%d", statusPort))
+	abort := make(chan struct{})
+	go dastard.RunClientUpdater(statusPort, abort)
+	func() {
+		defer func() {
+			if r := recover(); r != nil {
+				rec["panic"] = fmt.Sprint(r)
+			}
+		}()
+		dastard.RunRPCServer(rpcPort, false)
+	}()
+	if rec["panic"] != "" {
+		return
+	}
+	last := map[string]string{}
+	collect := func(d time.Duration) {
+		end := time.Now().Add(d)
+		for time.Now().Before(end) {
+			if p, err := sub.RecvMessage(zmq4.DONTWAIT); err == nil && len(p) >= 2 {
+				last[p[0]] = p[1]
+			} else {
+				time.Sleep(2 * time.Millisecond)
+			}
+		}
+	}
+	collect(900 * time.Millisecond)
+	if conn, err := net.DialTimeout("tcp", fmt.Sprintf("localhost:%d", rpcPort), 2*time.Second); err == nil {
+		client := jsonrpc.NewClient(conn)
+		dummy, ok := "", false
+		client.Call("SourceControl.SendAllStatus", &dummy, &ok)
+		client.Close()
+	}
+	collect(700 * time.Millisecond)
+	restored := map[string]string{}
+	for _, topic := range []string{"TRIANGLE", "SIMPULSE", "STATUS", "WRITING"} {
+		body, ok := last[topic]
+		if !ok {
+			continue
+		}
+		var x any
+		if json.Unmarshal([]byte(body), &x) != nil {
+			continue
+		}
+		m, _ := x.(map[string]any)
+		switch topic {
+		case "STATUS":
+			x = map[string]any{"Npresamp": m["Npresamp"], "Nsamples": m["Nsamples"]}
+		case "WRITING":
+			x = map[string]any{"BasePath": m["BasePath"]}
+		}
+		b, _ := json.Marshal(suPrune(x))
+		restored[topic] = string(b)
+	}
+	rec["restored"] = restored
+	topics := []string{}
+	for k := range last {
+		topics = append(topics, k)
+	}
+	sort.Strings(topics)
+	rec["topics"] = topics
+}
+
+// suRunChildren runs the complete start-up on up to n of the snapshots, each in a process of its own.
+func suRunChildren(snaps []string, n int) map[string]map[string]any {
+	out := map[string]map[string]any{}
+	if n <= 0 || len(snaps) == 0 {
+		return out
+	}
+	// snapshots the save driver marked (taken after an undisturbed save of several topics) first, evenly spread
+	marked := []string{}
+	for _, s := range snaps {
+		if _, err := os.Stat(filepath.Join(s, "FULLSTART")); err == nil {
+			marked = append(marked, s)
+		}
+	}
+	if len(marked) == 0 {
+		marked = snaps
+	}
+	step := len(marked) / n
+	if step < 1 {
+		step = 1
+	}
+	for i := len(marked) - 1; i >= 0 && len(out) < n; i -= step {
+		snap := marked[i]
+		tmp, err := os.MkdirTemp("", "verif_child")
+		if err != nil {
+			continue
+		}
+		exec.Command("cp", "-r", filepath.Join(snap, ".dastard"), tmp).Run()
+		cmd := exec.Command(os.Args[0], "-test.run", "TestVerifStartupChild$")
+		cmd.Env = append(os.Environ(), "VERIF_CHILD_SNAP="+tmp, "HOME="+tmp, "VERIF_CHILD_OUT="+filepath.Join(tmp, "child.json"))
+		done := make(chan []byte, 1)
+		go func() { b, _ := cmd.CombinedOutput(); done <- b }()
+		var outb []byte
+		select {
+		case outb = <-done:
+		case <-time.After(15 * time.Second):
+			if cmd.Process != nil {
+				cmd.Process.Kill()
+			}
+			outb = <-done
+		}
+		found := false
+		if b, err := os.ReadFile(filepath.Join(tmp, "child.json")); err == nil {
+			var r map[string]any
+			if json.Unmarshal(b, &r) == nil {
+				out[snap] = r
+				found = true
+			}
+		}
+		if !found {
+			tail := string(outb)
+			if len(tail) > 600 {
+				tail = tail[len(tail)-600:]
+			}
+			out[snap] = map[string]any{"panic": "child gave no result: " + tail, "restored": map[string]any{}}
+		}
+		os.RemoveAll(tmp)
+	}
+	return out
+}
 
 func suPrune(x any) any {
 	switch t := x.(type) {
@@ -124,6 +290,8 @@ func TestVerifStartup(t *testing.T) {
 	enc := json.NewEncoder(out)
 	snaps, _ := filepath.Glob(filepath.Join(snapdir, "sc*", "r*"))
 	sort.Strings(snaps)
+	nreal, _ := strconv.Atoi(os.Getenv("VERIF_NREAL"))
+	children := suRunChildren(snaps, nreal)
 	for _, snap := range snaps {
 		os.Setenv("HOME", snap)
 		viper.Reset()
@@ -154,6 +322,18 @@ func TestVerifStartup(t *testing.T) {
 			}
 			rec["restored"] = suRestored()
 		}()
+		// where the complete start-up ran on this snapshot, what IT told the clients replaces the replicated reads
+		if ch, ok := children[snap]; ok {
+			rec["fullstart"] = true
+			rec["fullpanic"] = ch["panic"]
+			if rm, ok := rec["restored"].(map[string]string); ok && ch["panic"] == "" {
+				if cr, ok := ch["restored"].(map[string]any); ok {
+					for k, v := range cr {
+						rm[k] = fmt.Sprint(v)
+					}
+				}
+			}
+		}
 		enc.Encode(rec)
 	}
 }
